@@ -89,7 +89,7 @@ theorem substitute_inv (h m h' : NNet) (c : Nat) (w : WFm h) (fd : FD h.net) (mw
   obtain ⟨sh, hs, k2, k3, k4⟩ := implGenOKB_spec m hok
   have hself := noSelfIgnB_spec h c m sh hs hns
   obtain ⟨hil, hol⟩ := har sh hs
-  obtain ⟨h5, map, dang, hcore, hdn⟩ := core_some h c m sh hs w fd hc hil hol hfresh ht hself hio
+  obtain ⟨h5, map, dang, hcore, hdn, _⟩ := core_some h c m sh hs w fd hc hil hol hfresh ht hself hio
   obtain ⟨wfm5, hmapLt⟩ := core_wfm h m c w mw hc hio hcf sh hs k2 k3 k4 hself h5 map dang hcore
   obtain ⟨dd, wd, _⟩ := densNN_densM (map.toList.filterMap id) h5 wfm5
   have ho : ∀ x ∈ map.toList.filterMap id, x < (densNN h5 (map.toList.filterMap id)).net.nodes.size := by
